@@ -192,6 +192,13 @@ class Runner:
         rc, so, se = sh(base + ['-c', src2, '-o', exe + '.2.o'])
         if rc != 0:
             return 'compile-error', norm_diag(se), se[:1500]
+        # the same unit under the other language standards a user may compile with (each header alone compiles under all of
+        # them): fall-backs selected by __cplusplus / __STDC_VERSION__ (a hand-made static assertion for pre-C++11, say) exist
+        # only there
+        for std in (('-std=c11', '-std=c2x') if lang == 'c' else ('-std=c++98', '-std=c++20')):
+            rc, so, se = sh([x for x in base if not x.startswith('-std=')] + [std, '-fsyntax-only', src2])
+            if rc != 0:
+                return 'compile-error', ('%s: ' % std[1:]) + norm_diag(se), se[:1500]
         # the same unit with the compiler's default diagnostics as errors: a declaration whose meaning depends on what was
         # included before (a struct tag first seen inside a parameter list, a conflicting redeclaration that is only a
         # warning) is diagnosed by default; the pinned headers are free of default diagnostics in every combination
